@@ -50,12 +50,23 @@ def _type_names(fa, t):
             ds = fa.df.reaching(ids[0], t.id)
             if len(ds) == 1 and ds[0].kind == "assign" and isinstance(ds[0].value, ast.Tuple):
                 v = ds[0].value
+            elif len(ds) == 1 and ds[0].kind == "for" and isinstance(getattr(ds[0].stmt, "target", None), ast.Name) and ds[0].value is not None:
+                # the variable of a loop over a collection of types: tested against each of them in turn
+                return _each_of(fa, ds[0].value)
             elif not ds:
                 mv = getattr(fa.fi.module, "assigns", {}).get(t.id)
                 if isinstance(mv, ast.Tuple):
                     v = mv
         if v is not None:
             return _type_names(fa, v)
+        # the variable of a comprehension over a collection of types (`any(isinstance(x, t) for t in TYPES)`)
+        p = fa.pm.get(t)
+        while p is not None and not isinstance(p, ast.stmt):
+            if isinstance(p, (ast.GeneratorExp, ast.ListComp, ast.SetComp)):
+                for g in p.generators:
+                    if isinstance(g.target, ast.Name) and g.target.id == t.id:
+                        return _each_of(fa, g.iter)
+            p = fa.pm.get(p)
     if isinstance(t, ast.Attribute) and isinstance(t.value, ast.Name) and fa.fi.cls is not None \
             and t.value.id in ("self", "cls", fa.fi.cls.name):
         # a constant of the function's own class
@@ -65,6 +76,25 @@ def _type_names(fa, t):
         if len(vals) == 1 and isinstance(vals[0], ast.Tuple):
             return _type_names(fa, vals[0])
     return {A.norm(t)}
+
+
+def _each_of(fa, it):
+    """the type names a collection of types that is iterated over stands for (a tuple / list / set display, or a
+    name bound to one); the collection's own text if it cannot be opened up"""
+    if isinstance(it, (ast.Tuple, ast.List, ast.Set)):
+        out = set()
+        for e in it.elts:
+            out |= _type_names(fa, e)
+        return out
+    if isinstance(it, ast.Name):
+        ids = fa.nodes(it)
+        ds = fa.df.reaching(ids[0], it.id) if ids else []
+        if len(ds) == 1 and ds[0].kind == "assign" and isinstance(ds[0].value, (ast.Tuple, ast.List, ast.Set)):
+            return _each_of(fa, ds[0].value)
+        mv = getattr(fa.fi.module, "assigns", {}).get(it.id) if not ds else None
+        if isinstance(mv, (ast.Tuple, ast.List, ast.Set)):
+            return _each_of(fa, mv)
+    return {"each of " + A.norm(it)}
 
 
 def _value_types(fa, param):
